@@ -29,18 +29,7 @@ func checkClientResponse(v *Verdict, p *Plan, r *RunResult, ri int, facts map[st
 		}
 		seen[k] = true
 		f := copyFacts(facts)
-		rule := "invalid-client-response"
-		switch {
-		case strings.HasPrefix(prob, "stray HTTP trailers"):
-			rule = "stray-http-trailers"
-		case strings.Contains(prob, "multiple grpc-status values") || strings.HasPrefix(prob, "status signalled both"):
-			rule = "conflicting-grpc-status"
-		case strings.HasPrefix(prob, "body declared Content-Encoding") && strings.Contains(prob, "does not decompress"):
-			rule = "raw-frame-declared-compressed"
-			f["dir"] = "response"
-		default:
-			f["kind"] = k
-		}
+		rule := classifyResponseProblem(prob, k, f)
 		if seen[rule] && rule != "invalid-client-response" {
 			continue
 		}
@@ -185,4 +174,20 @@ func init() {
 		Components:  stdComponents,
 		Assumptions: []string{"a bare HTTP error (status >= 400 without protocol framing) is accepted as a valid shape only for requests that never reached a handler or whose backend itself answered bare", "SimRW stands in for net/http's framing checks"},
 	})
+}
+
+// classifyResponseProblem maps a validator complaint to a rule name (shared by C03 and C09 so that one
+// defect has one name) and adds the facts that rule needs.
+func classifyResponseProblem(prob, kind string, f map[string]string) string {
+	switch {
+	case strings.HasPrefix(prob, "stray HTTP trailers"):
+		return "stray-http-trailers"
+	case strings.Contains(prob, "multiple grpc-status values") || strings.HasPrefix(prob, "status signalled both"):
+		return "conflicting-grpc-status"
+	case strings.HasPrefix(prob, "body declared Content-Encoding") && strings.Contains(prob, "does not decompress"):
+		f["dir"] = "response"
+		return "raw-frame-declared-compressed"
+	}
+	f["kind"] = kind
+	return "invalid-client-response"
 }
